@@ -963,7 +963,7 @@ def run(ctx):
     if not ok:
         return
     rnd = random.Random(ctx.seed)
-    n_hist = 60 if ctx.tier == "quick" else 500
+    n_hist = 60 if ctx.tier == "quick" else 400
     max_events = 22 if ctx.tier == "quick" else 40
 
     cases, metas = [], []
